@@ -1,5 +1,5 @@
 (* C14 - Retention removes only expired, closed segments and never rewinds offsets. *)
-From IggyV Require Import Base.Tactics Base.ListX Model.Part Model.PartSpec Proofs.PartBasics.
+From IggyV Require Import Base.Tactics Base.ListX Model.Part Model.PartSpec Proofs.PartBasics Proofs.PartHistory.
 Open Scope N_scope.
 
 Definition C14_full : Prop := forall c t0 ops, model_check c t0 ops = 0.
@@ -19,6 +19,21 @@ Theorem C14_survivors_untouched : forall p v now s,
   In s (p_segs (remove_segs p v now)) -> In s (p_segs p) \/ (seg_all s = [] /\ s_closed s = false).
 Proof. exact remove_segs_segs. Qed.
 
+(* PROVED, history level, for size-based retention (delete_oldest_segments with a topic size limit; no message expiry
+   configured): in every reachable state a maintenance pass removes a PREFIX of the log made of whole segments - what remains
+   is a suffix of what was stored, still one gap-free run - and the next offset to be assigned does not change. *)
+Theorem C14_size_retention_partial : forall ops c t0 now, good_cfg c -> Forall no_expiry_op ops ->
+  Forall (fun q => abase q <= B32) (prun_states (c, part_new c t0) ops) ->
+  let c' := fst (pfinal (c, part_new c t0) ops) in let p := snd (pfinal (c, part_new c t0) ops) in
+  (exists removed, part_all p = removed ++ part_all (maintain c' now p)) /\
+  contig (first_start (maintain c' now p)) (part_all (maintain c' now p)) /\ abase (maintain c' now p) = abase p.
+Proof.
+  intros ops c t0 now Hc Hops Hb. cbn zeta. destruct (history_J ops c (part_new c t0) Hc (J_new c t0) Hops Hb) as [HJ [Hseg Hexp]].
+  split; [apply (maintain_suffix _ now _ Hexp HJ)|]. split; [apply (j_contig _ (J_maintain _ now _ Hexp HJ))|].
+  destruct (maintain_cur (fst (pfinal (c, part_new c t0) ops)) now (snd (pfinal (c, part_new c t0) ops))) as [A B]. unfold abase. rewrite A, B. reflexivity.
+Qed.
+
 Print Assumptions C14_cursor_unchanged.
 Print Assumptions C14_only_expired_closed.
 Print Assumptions C14_survivors_untouched.
+Print Assumptions C14_size_retention_partial.
